@@ -306,6 +306,46 @@ async def cwl_case(context):
     return None
 
 
+async def hardware_case(context, directed=False):
+    """CWL schedule steps with a hardware requirement: every resource a number (ZERO, the values that equal a constructor default and
+    fractions included), an expression string or left unset; the loaded requirement has the attributes of the saved one"""
+    from streamflow.core.config import BindingConfig
+    from streamflow.core.deployment import LocalTarget
+    from streamflow.cwl.hardware import CWLHardwareRequirement
+    from streamflow.cwl.step import CWLScheduleStep
+    from streamflow.cwl.workflow import CWLWorkflow
+    from streamflow.workflow.port import ConnectorPort
+
+    version = rng.choice(["v1.0", "v1.1", "v1.2"])
+    wf = CWLWorkflow(context=context, config={}, name=uniq("hwwf"), cwl_version=version)
+
+    def res():
+        return rng.choice([None, 0, 0.0, 1, 0.5, 256, 1024, 4096, "$(inputs.n * 2)", ""])
+
+    reqs = []
+    if directed:
+        reqs.append(dict(cores=0, memory=0, tmpdir=0, outdir=0))
+        reqs.append(dict(cores=0.0, memory="", tmpdir=1024, outdir=None, full_js=True, expression_lib=[]))
+    for _ in range(rng.randint(1, 3)):
+        reqs.append(dict(cores=res(), memory=res(), tmpdir=res(), outdir=res(), full_js=rng.random() < 0.5,
+                         expression_lib=rng.choice([None, [], ["function f(x){return x;}"]])))
+    want = {}
+    for i, kw in enumerate(reqs):
+        target = LocalTarget(workdir="/tmp/" + uniq("w"))
+        st = wf.create_step(cls=CWLScheduleStep, name=f"/t{i}/__schedule__", job_prefix=f"/t{i}",
+                            connector_ports={target.deployment.name: wf.create_port(cls=ConnectorPort)},
+                            binding_config=BindingConfig(targets=[target]),
+                            hardware_requirement=CWLHardwareRequirement(cwl_version=version, **kw))
+        want[st.name] = generic(st.hardware_requirement)
+    await wf.save(context.database)
+    loaded = await CWLWorkflow.load(wf.persistent_id, DefaultDatabaseLoadingContext(database=context.database))
+    got = {n: generic(s.hardware_requirement) for n, s in loaded.steps.items()}
+    if got != want:
+        return {"failure": "the hardware requirement of a schedule step loaded back differs from the one saved",
+                "differences (step, saved, loaded)": str([(n, want[n], got.get(n)) for n in want if want[n] != got.get(n)])[:900]}
+    return None
+
+
 def describe_deployment(d):
     return (d.name, d.type, json.dumps(d.config, sort_keys=True, default=str), d.external, d.lazy,
             (d.scheduling_policy.name, d.scheduling_policy.type, json.dumps(d.scheduling_policy.config, sort_keys=True, default=str)),
@@ -394,8 +434,11 @@ async def search(n):
     context = build_context({"database": {"type": "default", "config": {"connection": ":memory:"}}, "path": workdir})
     try:
         await port_twice_case(context)
+        bad = await asyncio.wait_for(hardware_case(context, directed=True), 60)
+        if bad:
+            return bad
         for k in range(n):
-            bad = await asyncio.wait_for([token_case, workflow_case, config_case, token_case, cwl_case, incremental_save_case][k % 6](context), 60)
+            bad = await asyncio.wait_for([token_case, workflow_case, config_case, token_case, cwl_case, incremental_save_case, hardware_case][k % 7](context), 60)
             if bad:
                 return bad
     except Exception as e:
